@@ -9,7 +9,7 @@ from .. import world as W
 from . import _ws
 
 ID = 'C11'
-TIERS = {'quick': {'seeds': 3000, 'seconds': 75, 'determinism': 32},
+TIERS = {'quick': {'seeds': 3000, 'seconds': 45, 'determinism': 32},
          'thorough': {'seconds': 900, 'determinism': 256, 'minimise_s': 120}}
 RULE = ('fault-free worlds (0/1/many tests per layer); seeds from {0, negative, huge, random, '
         'ABSENT}; simulated clocks with parent/child skew up to +-1 h (the default seed is read '
